@@ -96,8 +96,9 @@ def run(chk):
         "retry": ("tables/MC_RetryAlgebra.tla", "tables/MC_RetryAlgebra_retry_%s.cfg" % tier),
         "stop": ("tables/MC_RetryAlgebra.tla", "tables/MC_RetryAlgebra_stop_%s.cfg" % tier),
         "wait": ("tables/MC_WaitStrategies.tla", "tables/MC_WaitStrategies_%s.cfg" % tier),
-        "wait_strict": ("tables/MC_WaitStrategies.tla", "tables/MC_WaitStrategies_strict.cfg"),
     }
+    if not chk.quick:   # the intended design (clamp on overflow) satisfies totality strictly
+        runs["wait_strict"] = ("tables/MC_WaitStrategies.tla", "tables/MC_WaitStrategies_strict.cfg")
     results = {}
 
     def mc(name):
@@ -112,7 +113,8 @@ def run(chk):
         t.join()
 
     trees, inputs = {}, {}
-    for name, res in results.items():
+    for name in runs:
+        res = results[name]
         chk.record_tlc("C07/" + name, res, count=(name != "wait_strict"))
         if res.violated:
             chk.violation("model:%s:%s" % (name, res.violated),
@@ -142,6 +144,7 @@ def run(chk):
         trees[name] = ts
 
     total_eval = total_vec = nontriv = conf_ok = 0
+    built = {}
     for kind in ("retry", "stop", "wait"):
         if kind not in trees:
             continue
@@ -160,8 +163,29 @@ def run(chk):
             for v in (drv.variants_of(t) if not t["kids"] else [0]):
                 tab.intern(t, v)
         batch = {"kind": kind, "inputs": [c[0] for c in conc] if kind != "wait" else conc, "nodes": tab.nodes}
-        verdicts, _ = _obslib.observe(chk, "obs/Obs_C07.tla", "obs/Obs_C07.cfg", batch, libs=["tables"],
-                                      name="obs_" + kind, workers=chk.pick(2, 8), jvm=fast, traces_key="nodes")
+        built[kind] = (ab, conc, tab, batch)
+
+    obs, errs = {}, []
+
+    def ob(kind):
+        try:
+            obs[kind] = _obslib.observe(chk, "obs/Obs_C07.tla", "obs/Obs_C07.cfg", built[kind][3], libs=["tables"],
+                                        name="obs_" + kind, workers=chk.pick(2, 6), jvm=fast, traces_key="nodes",
+                                        record=False)
+        except Exception as e:      # re-raised in the main thread
+            errs.append(e)
+
+    ths = [threading.Thread(target=ob, args=(k,)) for k in built]
+    for t in ths:
+        t.start()
+    for t in ths:
+        t.join()
+    if errs:
+        raise errs[0]
+
+    for kind, (ab, conc, tab, batch) in built.items():
+        verdicts, ores = obs[kind]
+        chk.record_tlc("obs_" + kind, ores, count=False)
         n_comb = sum(1 for t in trees[kind] if t["op"] in COMB)
         total_vec += len(trees[kind]) * len(ab)
         nontriv += n_comb * len(ab)
@@ -185,8 +209,8 @@ def run(chk):
             else:
                 drift[conf] += 1
                 if drift[conf] <= 2:
-                    chk.note("conformance drift (%s): %s%s variant %d returned %s on input %s; the table expected otherwise"
-                             % (conf, node["op"], node["sargs"] or node["iargs"], node["variant"],
+                    chk.note("conformance drift (%s): %s variant %d returned %s on input %s; the table expected otherwise"
+                             % (conf, _show(tab.abstract[i - 1]), node["variant"],
                                 node["vals"][cl - 1], batch["inputs"][cl - 1]))
             if clause != "ok":
                 key = "obs:%s:%s" % (clause, feature)
